@@ -620,7 +620,11 @@ class Run:
               "wall_s": round(time.time() - self.t0, 2),
               "violations": len(self.violations),
               "known_findings_reported": self.known_printed}
-        with open(os.path.join(EVID, self.pid + ".json"), "w") as f:
+        # a --replay run re-runs one stored case: its evidence goes beside the build, not over the
+        # evidence of the last full run
+        evdir = EVID if not self.replay_path else os.path.join(BUILD, "evidence-replay")
+        os.makedirs(evdir, exist_ok=True)
+        with open(os.path.join(evdir, self.pid + ".json"), "w") as f:
             json.dump(ev, f, indent=1, sort_keys=True, default=str)
         # every listed (open) finding of this property is reported on every run, met or not
         for k in self.known:
